@@ -1147,3 +1147,41 @@ Section Pipeline.
           destruct (status_rejected (e (t_penalty k))); reflexivity.
   Qed.
 End Pipeline.
+
+(* the carrier's answers during the block of height h, as seen from the state before the block *)
+Definition blk_eff (sc : script) (t : tower) (h : N) : N -> cstatus := eff_status sc (set_car_height t h).
+
+Lemma retry_lim h lim : u32_sub h RETRY = Some lim -> lim < h /\ lim = h - RETRY /\ RETRY <= h.
+Proof.
+  unfold u32_sub. rewrite RETRY_6. destruct (N.leb_spec 6 h); [|discriminate]. intros E. inversion E. lia.
+Qed.
+
+(* every row of the tracker table after the responder has processed a block *)
+Theorem r_block_connected_rows le sc t b h t' :
+  Inv t -> r_block_connected le sc t b h = Ok tt t' ->
+  exists lim, u32_sub h RETRY = Some lim /\
+    forall u, find_trk (db_trks t') u =
+              match find_trk (db_trks t) u with
+              | None => None
+              | Some k => fate (keys_of (ib_data b)) h lim (reorged t) (blk_eff sc t h) k
+              end.
+Proof.
+  intros HI E. destruct (r_block_connected_stages le sc t b h t' HI E) as [idx [lim [tR [t3 [t5 S]]]]].
+  destruct S as [S1 S2 S3 S4 S5 [m [l S6]] S7 S8 S9 S10].
+  exists lim. split; [exact S2|]. intros u.
+  assert (HI2 : Inv (cc_result (keys_of (ib_data b)) h (set_r_index (set_car_height t h) idx))).
+  { assert (HI1 : Inv (set_r_index (set_car_height t h) idx)) by (eapply inv_frame; [|exact HI]; repeat split).
+    pose proof (check_conf_loop_pres Inv (sb_wr _ (sa_block _ inv_stable)) le (keys_of (ib_data b)) h
+                  (db_trks t) (set_r_index (set_car_height t h) idx) [] HI1) as Hp.
+    pose proof (check_conf_loop_spec le (keys_of (ib_data b)) h _ [] HI1) as Hcc.
+    change (reorged (set_r_index (set_car_height t h) idx)) with (reorged t) in Hcc.
+    change (db_trks (set_r_index (set_car_height t h) idx)) with (db_trks t) in Hcc.
+    rewrite S3 in Hcc. rewrite Hcc in Hp. exact Hp. }
+  destruct (refund_loop_spec _ _ _ HI2 S4) as [[g [d EtR]] _].
+  destruct (retry_lim h lim S2) as [Hlim _].
+  subst tR. subst t3. subst t5. subst t'.
+  pose proof (inv_trks_nodup t HI) as Hnd.
+  destruct (find_trk (db_trks t) u) as [k|] eqn:Ef.
+  - exact (pipeline_row (keys_of (ib_data b)) h lim (reorged t) (blk_eff sc t h) (db_trks t) Hnd Hlim S3 u k Ef).
+  - exact (pipeline_none (keys_of (ib_data b)) h lim (reorged t) (blk_eff sc t h) (db_trks t) u Ef).
+Qed.
